@@ -47,6 +47,7 @@ type c16Clock struct {
 	called   int
 	letGo    *bool
 	deadline time.Duration
+	zeroTS   bool // succeeds with the zero time as timestamp
 }
 
 type c16Outcome struct {
@@ -77,6 +78,12 @@ func (c *c16Clock) MeasureClockOffset(ctx context.Context) (time.Time, time.Dura
 	if c.fail {
 		return time.Time{}, 0, errScripted
 	}
+	if c.zeroTS {
+		// a successful result need not carry a timestamp (the local reference clock of the sync
+		// loop reports the zero time): it is a result all the same
+		c.r.Probe("success-with-zero-timestamp")
+		return time.Time{}, c.off, nil
+	}
 	return c.release, c.off, nil
 }
 
@@ -95,6 +102,7 @@ func c16World(t *testing.T, r *simcore.Run) any {
 		c := &c16Clock{r: r, name: fmt.Sprintf("%d", i), letGo: &letGo, deadline: dl}
 		c.timing = c16Timing(tp.Intn(int(c16NumTimings), "timing"))
 		c.fail = tp.Bool(1, 3, "fail")
+		c.zeroTS = tp.Bool(1, 5, "zero-timestamp")
 		c.off = time.Duration(1000 + i) // unique, recognisable
 		switch c.timing {
 		case c16Before:
